@@ -40,6 +40,10 @@ MUTANTS = [
     ("C05", "detect", UNIT, "    if invalid_headers:\n", "    if invalid_headers and status != Status.SUCCESS:\n", "invalid headers lost on success"),
     ("C05", "detect", UNIT, "        except (KeyboardInterrupt, Failure):", "        except KeyboardInterrupt:", "Failure no longer re-raised by the cache wrapper"),
     ("C05", "detect", STATE, "            suite_status = Status.ERROR\n", "            suite_status = Status.SUCCESS\n", "stateful error folded to success"),
+    ("C06", "detect", "specs/openapi/_hypothesis.py", "            elif isinstance(sub_item, (dict, list)):\n                stack.append(sub_item)", "            elif isinstance(sub_item, dict):\n                stack.append(sub_item)", "lists nested in objects are not visited (F06b regression)"),
+    ("C06", "detect", "specs/openapi/_hypothesis.py", "                item[key] = \"true\" if sub_item else \"false\"", "                item[key] = \"True\" if sub_item else \"False\"", "Python spelling of booleans"),
+    ("C06", "detect", "specs/openapi/serialization.py", "        delimiter = \".\"\n", "        delimiter = \";\"\n", "label style explode delimiter"),
+    ("C06", "detect", "specs/openapi/_hypothesis.py", "            elif value == \"..\":\n                parameters[key] = \"%2E%2E\"", "            elif value == \"..\":\n                parameters[key] = \"%2E\"", "'..' encoded as a single dot"),
     # ---- C07
     ("C07", "detect", FIL, "return any(filter_.match(ctx) for filter_ in self._includes)", "return all(filter_.match(ctx) for filter_ in self._includes)", "includes combined with all"),
     ("C07", "detect", FIL, "        return all(matcher.match(ctx) for matcher in self.matchers)", "        return any(matcher.match(ctx) for matcher in self.matchers)", "matchers of one filter combined with any"),
